@@ -10,6 +10,7 @@ the theorems need from `(1 - 2f) * max_leaf_size ≥ 4` and `|r - 2fn| < 1` (the
 exhaustively against Python by the correspondence).
 -/
 import Xrfmv.Lemmas.BuildSizes
+import Xrfmv.Lemmas.ShapeAgree
 import Mathlib.Data.Real.Basic
 import Mathlib.Tactic.Linarith
 import Mathlib.Tactic.Positivity
@@ -80,5 +81,29 @@ example : OvOk { maxLeaf := 8, nsplits := none, ov := fun m => (m : Int) / 4 } :
   intro m hm
   simp only at hm ⊢
   omega
+
+/-- **C06 (sizes are independent of the data)** Whatever the data — that is, for every answer of the sort and
+permutation oracles that meets their contracts (ties, duplicates, constant columns included) — the tree built over
+sample indices has exactly the shape and the leaf sizes of the size skeleton, and consumes the same number of splits.
+All statements above therefore hold for the index-level trees of C07 / C08. -/
+theorem sizes_independent_of_data (cfg : Xrfmv.BuildIndex.Cfg) (O : Xrfmv.BuildIndex.Oracles)
+    (hc : Xrfmv.BuildIndex.Contracts O) (hov : ∀ m : Nat, ∃ o : Nat, O.ov m = (o : Int) ∧ o ≤ m)
+    (fuel : Nat) (path : List Bool) (idx : List Nat) (isRoot : Bool) (count : Nat) :
+    Xrfmv.ShapeAgree.ishape (Xrfmv.BuildIndex.build cfg O fuel path idx isRoot count).1 =
+      Xrfmv.ShapeAgree.sshape (build (Xrfmv.ShapeAgree.sizeCfg cfg O) fuel idx.length count).1 ∧
+    (Xrfmv.BuildIndex.build cfg O fuel path idx isRoot count).2 =
+      (build (Xrfmv.ShapeAgree.sizeCfg cfg O) fuel idx.length count).2 :=
+  Xrfmv.ShapeAgree.shapes_agree cfg O hc hov fuel path idx isRoot count
+
+/-- Two data sets of the same size give trees of the same shape and leaf sizes. -/
+theorem same_size_same_shape (cfg : Xrfmv.BuildIndex.Cfg) (O O' : Xrfmv.BuildIndex.Oracles)
+    (hc : Xrfmv.BuildIndex.Contracts O) (hc' : Xrfmv.BuildIndex.Contracts O') (hsame : O.ov = O'.ov)
+    (hov : ∀ m : Nat, ∃ o : Nat, O.ov m = (o : Int) ∧ o ≤ m)
+    (fuel : Nat) (idx idx' : List Nat) (hlen : idx.length = idx'.length) :
+    Xrfmv.ShapeAgree.ishape (Xrfmv.BuildIndex.build cfg O fuel [] idx true 0).1 =
+      Xrfmv.ShapeAgree.ishape (Xrfmv.BuildIndex.build cfg O' fuel [] idx' true 0).1 := by
+  rw [(sizes_independent_of_data cfg O hc hov fuel [] idx true 0).1,
+    (sizes_independent_of_data cfg O' hc' (hsame ▸ hov) fuel [] idx' true 0).1, hlen]
+  simp [Xrfmv.ShapeAgree.sizeCfg, hsame]
 
 end Xrfmv.Props.C06
